@@ -11,6 +11,8 @@
 (*   fam 3  immediates of le/be/xadd/call, call kinds                      *)
 (*   fam 4  length classes up to one instruction past the 1,000,000 limit  *)
 (*   fam 5  far local calls and jumps in long programs                     *)
+(*   fam 6  the second slot of a wide load: only its opcode byte (0) is    *)
+(*          constrained, its register byte, offset and immediate are free  *)
 (***************************************************************************)
 EXTENDS Verifier, TLC, Json
 
@@ -77,16 +79,22 @@ Fam5 ==
   { Cand(<<5, JA, N, d>>, << S1(I(JA, 0, 0, N + d, 0)), Seg(N, Mov), S1(Exit) >>, 0) :
       N \in {32760}, d \in {-1, 0, 1, 6, 7} }
 
+\* ---- fam 6: contents of the second slot of a wide load
+Fam6 ==
+  { Cand(<<6, o2, rb, f>>, Flat(<< I(LDDW, 1, 0, 0, 5), I(o2, rb % 16, rb \div 16, f, m), Exit >>), 0) :
+      o2 \in {0, 1, 24, 149, 255}, rb \in {0, 1, 16, 160, 171, 187, 255}, f \in {0, 1, -1, -32768}, m \in {0, -1} }
+
 \* one initial state per opcode byte (families 1, 2) or per small family, so that the bulk of
 \* the enumeration happens in Next and is shared by TLC's workers
 Seeds == (IF 1 \in Fams \/ 2 \in Fams THEN { <<"op", o>> : o \in 0..255 } ELSE {})
          \cup (IF 3 \in Fams THEN { <<"f3", 0>> } ELSE {})
          \cup (IF 4 \in Fams THEN { <<"f4", 0>> } ELSE {})
          \cup (IF 5 \in Fams THEN { <<"f5", 0>> } ELSE {})
+         \cup (IF 6 \in Fams THEN { <<"f6", 0>> } ELSE {})
 
 CandsOf(s) ==
   IF s[1] = "op" THEN (IF 1 \in Fams THEN Fam1Of(s[2]) ELSE {}) \cup (IF 2 \in Fams THEN Fam2Of(s[2]) ELSE {})
-  ELSE IF s[1] = "f3" THEN Fam3 ELSE IF s[1] = "f4" THEN Fam4 ELSE Fam5
+  ELSE IF s[1] = "f3" THEN Fam3 ELSE IF s[1] = "f4" THEN Fam4 ELSE IF s[1] = "f5" THEN Fam5 ELSE Fam6
 
 Init == \E s \in Seeds : cand = s /\ phase = "seed" /\ verdict = FALSE
 Offer == /\ phase = "seed"
